@@ -40,6 +40,8 @@ def main():
                 shutil.copy(demo, os.path.join(wt, "_seed", "demo.py"))
                 d = subprocess.run(["/venv/bin/python", "_seed/demo.py"], cwd=wt, capture_output=True, text=True, timeout=300)
                 extra = " demo_exit=%d" % d.returncode
+                if d.returncode and os.environ.get("TRCHECK_VERBOSE"):
+                    extra += "\n" + (d.stdout + d.stderr)[-3000:]
             print("%-40s translated constructs=%-5d suite: %s%s" % (t[-40:], n, r.stdout.strip().splitlines()[-1] if r.stdout.strip() else r.stderr[-200:], extra))
         finally:
             subprocess.run(["git", "-C", "/repo", "worktree", "remove", "--force", wt])
